@@ -461,6 +461,7 @@ pub fn gen(prop: &str, seed: u64, index: u64, _tier: Tier) -> Case {
                 "prefixless-write",
                 "temp-txtpp",
                 "temp-txtpp-mid",
+                "include-directory",
             ];
             let k = *g.rng.pick(&kinds);
             err_kind = k.to_string();
@@ -485,6 +486,7 @@ pub fn gen(prop: &str, seed: u64, index: u64, _tier: Tier) -> Case {
                 "prefixless-run" => vec![vec!["TXTPP#run printf 'c1\\n'".into()]],
                 "prefixless-empty" => vec![vec!["  TXTPP#".into()]],
                 "prefixless-write" => vec![vec!["TXTPP#write x".into()]],
+                "include-directory" => vec![vec!["TXTPP#include @ROOT@/lib/x".into()]],
                 "temp-txtpp" => vec![vec!["-TXTPP#temp bad.txtpp".into(), "-body".into()]],
                 _ => vec![vec!["-TXTPP#temp bad.txtpp.txt".into(), "-body".into()]],
             };
